@@ -569,3 +569,61 @@ def zero_valid(ctx):
     from .common_falsy import zero_valid as run
     n = run(ctx, ['keys'], 'bip38_intermediate_password(p, lot=100000, sequence=0) raises "Both lot & sequence are required": the first key of every lot cannot be made')
     ctx.floor(n, 100, 'functions of the keys module')
+
+
+@PROP.obligation('C15.prefix-detect', canaries=[
+    mut.replace_expr('keys', 'get_key_format', "key[:2] == '6P'", "key[:3] in ['6PR', '6PY', '6Pf', '6Pg', '6Pn']", 'BIP38 strings recognised by a list of prefixes that misses 6Po'),
+])
+def prefix_detect(ctx):
+    """A BIP38 string is 58 Base58 characters; its first three depend on the mode and flag byte: 6PR / 6PY (plain, uncompressed /
+    compressed) and 6Pf / 6Pg / 6Pn / 6Po (EC-multiplied without / with lot and sequence, uncompressed / compressed). get_key_format,
+    evaluated on 58-character strings with each of the six prefixes and a symbolic rest, classifies every one as `wif_protected` - a
+    prefix the detection does not know makes a key that bip38_create_new_encrypted_wif produces undecryptable through Key / HDKey."""
+    from .. import seg
+    from ..sym import rewrite
+    q = 'keys:get_key_format'
+    fn = ctx.repo.func(q)
+    it = Interp(ctx.repo, 'keys', hooks=dict(LAYOUT_HOOKS))
+    try:
+        exits = it.run_function(fn, {'key': S(('var', 'key'), 'str'), 'is_private': None})
+    except Exception as e:
+        ctx.undecided('get_key_format not evaluable: %s' % str(e)[:100])
+    rets = [e for e in exits if e.kind == 'return' and isinstance(e.value, dict)]
+    if not rets:
+        ctx.undecided('get_key_format: no dictionary result')
+    K = ('var', 'key')
+
+    def prep(t):
+        def f(x):
+            if isinstance(x, tuple) and x and x[0] == 'isinstance' and x[1] == K:
+                return 'TYPE_TEXT' in show(x[2]) or show(x[2]).endswith("'str')")
+            if x == ('not', K):
+                return False
+            return None
+        return rewrite(t, f)
+    fmt_t = prep(term(rets[-1].value['format']))
+    n = 0
+    for pre in ('6PR', '6PY', '6Pf', '6Pg', '6Pn', '6Po'):
+        env = {K: seg.seg(pre.encode(), ('rest', 55))}
+        # the tests under which the format becomes wif_protected (the earlier tests of the chain are about other lengths)
+        guards = [x[1] for x in subterms(('w', fmt_t)) if isinstance(x, tuple) and len(x) == 4 and x[0] == 'cond' and x[2] == 'wif_protected']
+        if not guards:
+            ctx.undecided('get_key_format: no test yields the format wif_protected')
+        f = None
+        for gd in guards:
+            try:
+                c = seg.seg_truth(seg.seg_eval(gd, env))
+            except seg.SegUnknown as e:
+                ctx.undecided('get_key_format: BIP38 test not evaluable for a string starting %s: %s' % (pre, str(e)[:100]))
+            if isinstance(c, seg.Dep):
+                f = c
+            elif c:
+                f = 'wif_protected'
+                break
+        if f is None:
+            f = 'not recognised by the BIP38 test'
+        n += 1
+        ctx.saw('58 characters starting %s -> %s' % (pre, f))
+        ctx.require(f == 'wif_protected', q, 'a 58-character string starting %s is classified %s, not as a BIP38 key' % (pre, f if not isinstance(f, seg.Dep) else 'depending on its other characters'), fn,
+                    'keys with lot / sequence and the compression flag (6Po..., the default output of bip38_create_new_encrypted_wif for such an intermediate code) cannot be imported with the right passphrase')
+    ctx.floor(n, 6, 'BIP38 prefixes')
